@@ -113,6 +113,22 @@ def run(ck):
                     shape_err_verdict(ck, "C05.R2", inst, paths)
                     R, v0, r = p.value
                     loops = [l for l in p.interp.loops if "gibbs_steps" in l["site"]]
+                    if not loops and isinstance(r, VTens) and r.term == T.sym("init"):
+                        # a path that takes no step at all and hands back the start state: right exactly when k is 0
+                        from .. import ints
+
+                        kc_ = [c for c in p.conds if getattr(c[3] if len(c) > 3 else None, "term", None) is not None and "k" in c[3].term.syms()]
+                        zero = ints.positive_on_path(1 - T.sym("k"), {}, kc_)
+                        ck.check(True if zero is True else None, "C05.R2", inst + ":no step exactly when k is 0 [%s]" % path_tag(p), gsite,
+                                 "a path without any Gibbs step returns the start state, but the path does not establish k <= 0")
+                        writes_init = [e for e in p.effects if "param:init" in e.origins and e.kind in ("write", "meta")]
+                        if ow:
+                            ck.check(r.obj is v0.obj, "C05.R3", inst + ":returns initial_state", gsite, "with overwrite=True the returned chain is not the caller's tensor")
+                        else:
+                            ck.check(not writes_init, "C05.R3", inst + ":untouched", writes_init[0].site if writes_init else gsite,
+                                     "the caller's start state is written although overwrite=False (%s)" % (writes_init[0].detail if writes_init else ""))
+                            ck.check(r.obj.origin == "fresh", "C05.R3", inst + ":fresh result", gsite, "with overwrite=False the result shares storage with %s" % r.obj.origin)
+                        continue
                     if len(loops) != 1 or loops[0]["generic"] is None:
                         ck.undecided("C05.R2", inst, gsite, "expected exactly one summarised loop in gibbs_steps, found %d" % len(loops))
                         continue
@@ -123,10 +139,28 @@ def run(ck):
                     from ..interp import _count_term
 
                     ct_ = _count_term(itv)
-                    okc = (ct_ == ("range", T.ZERO, T.sym("k"), T.ONE)) if ct_[0] == "range" else None  # a trip count the analyser cannot tell is undecided
-                    ck.check(okc, "C05.R2", inst + ":k iterations", lp["site"], "the Gibbs loop does not run exactly k times: %s" % (ct_[1:] if ct_[0] == "range" else cnt,))
-                    # returned object is the loop-carried visible buffer
                     robj = r.obj
+                    # steps taken before the loop (a first step peeled off it): the value the loop's first iteration leaves in the
+                    # chain is then the (1 + peeled)-fold step of the start state
+                    peeled = 0
+                    if robj in lp["generic"]["terms"] and lp["first"]["terms"].get(robj) is not None:
+                        def _step(x):
+                            hp_ = T.app("bern", T.sigmoid(aff(x, R["W"], R["c"])))
+                            pre_ = T.app("matmul", hp_, R["W"]) + R["b"]
+                            if has_aux:
+                                pre_ = pre_ + T.app("matmul", T.app("bern", T.sigmoid(aff(x, R["U"], R["d"]))), R["U"])
+                            return T.app("bern", T.sigmoid(pre_))
+
+                        f_ = lp["first"]["terms"][robj]
+                        cand, x_ = [], _step(T.sym("init"))
+                        for n_ in range(3):
+                            cand.append(x_)
+                            x_ = _step(x_)
+                        hit = [n_ for n_, c_ in enumerate(cand) if c_ == f_ or c_ == distribute_cat(f_, R["_shapes"])]
+                        peeled = hit[0] if hit else 0
+                    okc = (ct_ == ("range", T.ZERO, T.sym("k") - peeled, T.ONE)) if ct_[0] == "range" else None  # a trip count the analyser cannot tell is undecided
+                    ck.check(okc, "C05.R2", inst + ":k iterations", lp["site"], "the Gibbs loop does not run exactly k times: %s%s" % (ct_[1:] if ct_[0] == "range" else cnt, " after %d step(s) taken before it" % peeled if peeled else ""))
+                    # returned object is the loop-carried visible buffer
                     ck.check(robj in lp["generic"]["terms"], "C05.R2", inst + ":returns chain", gsite, "the returned tensor is not the buffer updated by the loop")
                     if robj in lp["generic"]["terms"]:
                         carry = T.sym(lp["carried"][robj])
@@ -150,6 +184,8 @@ def run(ck):
                             _report_step(ck, inst + ":step", lp["site"], got, want, lp, robj)
                         first = lp["first"]["terms"].get(robj)
                         want1 = T.rename_syms(want, {lp["carried"][robj]: "init"})
+                        for _n in range(peeled):
+                            want1 = T.rename_syms(want, {lp["carried"][robj]: "init"}) if False else _step(want1)
                         if first is not None and first != want1:
                             first = distribute_cat(first, R["_shapes"])
                         _dims = {"nh", "na", "nv", "B"}
@@ -234,6 +270,13 @@ def run(ck):
                         # updated in place; what is returned is the caller's tensor itself or - for a start state of another dtype - the
                         # same new state in the model's dtype
                         same_val = r.obj is v0.obj or (f32 and r.term is not None and r.term == v0.obj.term)
+                        from .. import ints as _ints
+
+                        kc_ = [c for c in p.conds if getattr(c[3] if len(c) > 3 else None, "term", None) is not None and "k" in c[3].term.syms()]
+                        if not writes_init and _ints.positive_on_path(1 - T.sym("k"), {}, kc_) is True:
+                            # a path on which k is 0: no step, nothing to update - the start state itself comes back
+                            ck.check(bool(same_val) and r.term == T.sym("init"), "C05.R3", inst + ":in place [k = 0]", ssite, "with k = 0 and overwrite=True the start state is not handed back unchanged")
+                            continue
                         ck.check(bool(same_val) and bool(writes_init), "C05.R3", inst + ":in place", ssite,
                                  "overwrite=True does not update the caller's tensor in place" if not writes_init else "overwrite=True does not return the updated state")
                     else:
